@@ -13,7 +13,9 @@ use super::*;
 use crate::vk_prelude::*;
 
 fn mk_job(id: usize, ann: u8) -> Job {
-    let mut j = Job::new(Vec::new(), String::new(), JobState::Running);
+    // an entry may be running, stopped, or finished-but-not-yet-swept (after `wait %n`): all three own their number
+    let st = match any_below(3) { 0 => JobState::Running, 1 => JobState::Stopped, _ => JobState::Done };
+    let mut j = Job::new(Vec::new(), String::new(), st);
     j.id = id;
     j.annotation = match ann {
         0 => JobAnnotation::None,
@@ -63,21 +65,21 @@ fn add_step(n: usize) {
     std::mem::forget(mgr);
 }
 
-//@proof {'props': ['C17'], 'tier': 'quick', 'setup': True, 'timeout': 300, 'confirm': ['vk_c17_history_ids'], 'bounds': '2 live jobs, ids 1..=8 symbolic, one add', 'desc': 'add_as_current from an arbitrary 2-job table: fresh id distinct from every live id (one inductive step)'}
+//@proof {'props': ['C17'], 'tier': 'quick', 'setup': True, 'timeout': 300, 'confirm': ['vk_c17_history_ids', 'vk_c17_history_ids_after_individual_wait'], 'bounds': '2 live jobs, ids 1..=8 symbolic, one add', 'desc': 'add_as_current from an arbitrary 2-job table: fresh id distinct from every live id (one inductive step)'}
 #[kani::proof]
 #[kani::unwind(5)]
 fn vk_c17_add_fresh_id_2() {
     add_step(2);
 }
 
-//@proof {'props': ['C17'], 'tier': 'quick', 'timeout': 300, 'confirm': ['vk_c17_history_ids'], 'bounds': '3 live jobs, ids 1..=8 symbolic, one add', 'desc': 'add_as_current from an arbitrary 3-job table'}
+//@proof {'props': ['C17'], 'tier': 'quick', 'timeout': 300, 'confirm': ['vk_c17_history_ids', 'vk_c17_history_ids_after_individual_wait'], 'bounds': '3 live jobs, ids 1..=8 symbolic, one add', 'desc': 'add_as_current from an arbitrary 3-job table'}
 #[kani::proof]
 #[kani::unwind(5)]
 fn vk_c17_add_fresh_id_3() {
     add_step(3);
 }
 
-//@proof {'props': ['C17'], 'tier': 'quick', 'timeout': 300, 'confirm': ['vk_c17_history_ids'], 'bounds': '1 live job', 'desc': 'add_as_current on a 1-job table'}
+//@proof {'props': ['C17'], 'tier': 'quick', 'timeout': 300, 'confirm': ['vk_c17_history_ids', 'vk_c17_history_ids_after_individual_wait'], 'bounds': '1 live job', 'desc': 'add_as_current on a 1-job table'}
 #[kani::proof]
 #[kani::unwind(5)]
 fn vk_c17_add_fresh_id_1() {
